@@ -2,7 +2,7 @@ import Cellml.Tie.UnitDefsMake
 
 /-! # What the expression built by `_make_pint_unit_definition` means to pint = `Units.elemMeaning` / `Units.defMeaning` -/
 
-namespace Cellml.Tie
+namespace Cellml.Tie.PUnitDefs
 open Units Cellml.Gen
 
 theorem smul_one' {κ : Type} (a : PMap κ) : PMap.smul 1 a = a := by
@@ -46,4 +46,4 @@ theorem denAll_map (id : Nat) (elems : List UnitElem) (h : elems.any elemOffsetB
     simp only [List.any_cons, Bool.or_eq_false_iff] at h
     simp only [List.map_cons, denAll, defMeaning, elemExpr_den id e h.1, ih h.2]
 
-end Cellml.Tie
+end Cellml.Tie.PUnitDefs
